@@ -2,6 +2,7 @@
 # usage: tools/equiv_all.sh <patch.diff> [name]
 # False-alarm test: builds the monitor against a private worktree of /repo HEAD + a property-preserving patch and runs
 # ALL quick checks; prints every check that does not exit 0 (there must be none).
+export DBUS_SESSION_BUS_ADDRESS="${DBUS_SESSION_BUS_ADDRESS:-unix:path=/nonexistent/vmon-no-session-bus}"   # no session bus daemon per process (keyring init)
 patch="$1"; name="${2:-$(basename $patch .diff)}"
 export GOFLAGS=-mod=mod GOPROXY=off GOSUMDB=off GOTOOLCHAIN=local
 wt=/var/tmp/vmon-eqwt-$name-$$; mod=/var/tmp/vmon-eqmod-$name-$$
